@@ -105,7 +105,8 @@ def run(rep, tier, seed):
             bad = None      # an escaping non-LoadError is C04's subject; acceptance still compared above
         if bad:
             agree_viol += 1
-            kind = "user-loader-raises-non-LoadError" if "TUser" in repr(t) and "boom" in repr(v) else "other"
+            # user code that raises a non-LoadError: the modes run it on different parts of the input (see known findings)
+            kind = "user-code-raised-non-LoadError" if "TUser" in repr(t) and any(o == "X" for o in outs) else "other"
             rep.violation(f"modes:{bad}:{kind}", "property-violated",
                           {"what": bad, "type": t, "strict_coercion": sc, "datum": v,
                            "DISABLE": outs[0], "FIRST": outs[1], "ALL": outs[2]})
